@@ -138,6 +138,17 @@ def check_hess(case, ctx):
         if S['ts'] is not None:
             ctx.close('%s/act-diff:%s' % (tag, q), f(rev=False, act=True, **kwargs) - f(rev=True, act=True, **kwargs),
                       f(rev=False, act=False, **kwargs), rtol=0, atol=2 * tol)
+    # Arrhenius activation energy: the transition-state enthalpy change plus (1 - del_m) for every documented del_m, so
+    # forward minus reverse is the reaction enthalpy
+    if sums['HoRT'][0]['ts'] is not None:
+        S_, scale_ = sums['HoRT']
+        for dm in (0, 1, -1):
+            ef = rxn.get_EoRT_act(rev=False, del_m=dm, **kwargs)
+            er = rxn.get_EoRT_act(rev=True, del_m=dm, **kwargs)
+            ctx.close('C08.hess/EoRT_act', [ef, er], [S_['ts'] - S_['react'] + (1 - dm), S_['ts'] - S_['prod'] + (1 - dm)],
+                      rtol=0, atol=1e-10 * scale_ + 1e-12, detail='del_m=%r' % dm)
+            ctx.close('C08.hess/act-diff:EoRT_act', ef - er, S_['prod'] - S_['react'], rtol=0, atol=2e-10 * scale_ + 1e-12,
+                      detail='del_m=%r' % dm)
     # dimensional state and delta getters obey the same sums (full unit coverage is C04)
     from pmutt import constants as c_
     for Q, (q, unit, withT) in DIMS.items():
